@@ -27,7 +27,7 @@ open Biogo.PalsMerge Biogo.Proofs.PalsMerge
 theorem merge_source_facts :
     Biogo.Generated.PalsMerge.diagonalPadding = diagonalPadding ∧
     Biogo.Generated.PalsMerge.fpNewMerger = "392443e40c06fbbe" ∧
-    Biogo.Generated.PalsMerge.fpMergeFilterHit = "1909f9d36f7ab7fd" ∧
+    Biogo.Generated.PalsMerge.fpMergeFilterHit = "f9561280355fe664" ∧
     Biogo.Generated.PalsMerge.fpClipVertical = "5861ce210623e268" ∧
     Biogo.Generated.PalsMerge.fpClipTrapezoids = "47091a1af8bc4977" ∧
     Biogo.Generated.PalsMerge.fpFinaliseMerge = "bba445c04632a297" ∧
@@ -60,7 +60,7 @@ theorem merge_some {c : Cfg} {hits : List FHit} {traps : List Trap} (h : merge c
 /-- the state after the last hit, under `Pre`: the invariant, the hits covered, well-formedness -/
 theorem merged_state {c : Cfg} {hits : List FHit} (pre : Pre c hits) {s : St}
     (hm : mergeAll c St.init hits = some s) :
-    (∀ h ∈ hits, selfCut c h = false → ∃ t, (t ∈ s.active ∨ t ∈ s.done) ∧ Holds c t (-h.diagonal) h.to h.from_) ∧
+    (∀ h ∈ hits, dropped c h = false → ∃ t, (t ∈ s.active ∨ t ∈ s.done) ∧ Holds c t (-h.diagonal) h.to h.from_) ∧
     (∀ t, t ∈ s.active ∨ t ∈ s.done → t.bottom ≤ t.top ∧ t.left + c.binWidth ≤ t.right) := by
   have hwf := mergeAll_forall c (fun t => t.bottom ≤ t.top)
     (by intro x y hx hy; show (absorb x y).bottom ≤ (absorb x y).top
@@ -104,13 +104,15 @@ theorem clipping_is_identity_on_valid (c : Cfg) (hits : List FHit) (pre : Pre c 
   have hb := pre.band
   omega
 
-/-- **`merger_covers_hits`** — every filter hit handed to the merger, outside the
-    self-comparison cut, is contained in some returned trapezoid: the trapezoid's diagonal range
+/-- **`merger_covers_hits`** — every filter hit handed to the merger that is not dropped at the head
+    of `MergeFilterHit` (`dropped`: the self-comparison cut, or — since the repair of the sixth
+    defect — a band that starts beyond the last query row, `-Diagonal > Qlen`, which holds no cell of
+    the comparison) is contained in some returned trapezoid: the trapezoid's diagonal range
     `[Left, Right]` contains the hit's band `[-Diagonal, -Diagonal + binWidth]` and its query
     range `[Bottom, Top]` contains `[From, To]`. -/
 theorem merger_covers_hits (c : Cfg) (hits : List FHit) (traps : List Trap) (pre : Pre c hits)
     (hm : merge c hits = some traps) :
-    ∀ h ∈ hits, selfCut c h = false →
+    ∀ h ∈ hits, dropped c h = false →
       ∃ t ∈ traps, t.left ≤ -h.diagonal ∧ -h.diagonal + c.binWidth ≤ t.right ∧
         t.bottom ≤ h.from_ ∧ h.to ≤ t.top := by
   obtain ⟨s, hs, rfl⟩ := merge_some hm
@@ -152,6 +154,9 @@ theorem merger_self_clear_of_diagonal (c : Cfg) (hself : c.selfComparison = true
     (by intro x y hx _; exact hx)
     hits St.init s
     (by intro h _ hc
+        unfold dropped at hc
+        simp only [Bool.or_eq_false_iff] at hc
+        replace hc := hc.2
         unfold selfCut at hc
         rw [hself] at hc
         simp only [Bool.true_and, decide_eq_false_iff_not] at hc
@@ -201,12 +206,60 @@ theorem merger_output_within_rows (c : Cfg) (hits : List FHit) (traps : List Tra
   · exact inv.1 t h
   · exact inv.2 t h
 
-/-- **`merger_total`** — inside the modelled domain (every hit either cut by the self-comparison
-    test or with `-Diagonal ≤ Qlen` and `From - bottomPadding ≤ Qlen + 1`, which every hit of
-    `filter.Filter` satisfies) the model never answers `none`: the sentinel of the active list
-    stays an inert end marker. -/
+/-- **`clipping_never_grows`** — for arbitrary letters (runs of `N` anywhere in query or target),
+    arbitrary hits in any order, `maxIGap ≥ 1`: every trapezoid `FinaliseMerge` returns lies —
+    query rows *and* diagonal range — inside one of the trapezoids the merge walk built
+    (`s.active`, `s.done`): neither `clipVertical` nor `clipTrapezoids` ever grows a trapezoid.
+    (The diagonal half is `finalList_diag`, which `merger_self_clear_of_diagonal` uses; the vertical
+    half is new: the scan cuts at positions inside `[Bottom, Top]` only.) -/
+theorem clipping_never_grows (c : Cfg) (hg : 1 ≤ c.maxIGap) (hits : List FHit) (traps : List Trap)
+    (hm : merge c hits = some traps) :
+    ∃ s, mergeAll c St.init hits = some s ∧
+      ∀ t ∈ traps, ∃ t0, (t0 ∈ s.active ∨ t0 ∈ s.done) ∧
+        t0.bottom ≤ t.bottom ∧ t.top ≤ t0.top ∧ t0.left ≤ t.left ∧ t.right ≤ t0.right := by
+  obtain ⟨s, hs, rfl⟩ := merge_some hm
+  refine ⟨s, hs, ?_⟩
+  intro t ht
+  unfold finalise at ht
+  rw [mem_sortByBottom] at ht
+  exact finalList_within c hg s t ht
+
+/-- **`merger_output_rows_any_letters`** — hence, whatever the letters and the order of the hits:
+    when every hit has `0 ≤ From` and `To ≤ Qlen`, every returned trapezoid has `0 ≤ Bottom` and
+    `Top ≤ Qlen` (`merger_output_within_rows` without the assumption that no letter is invalid). -/
+theorem merger_output_rows_any_letters (c : Cfg) (hg : 1 ≤ c.maxIGap) (hits : List FHit) (traps : List Trap)
+    (hin : ∀ h ∈ hits, 0 ≤ h.from_ ∧ h.to ≤ c.qlen) (hm : merge c hits = some traps) :
+    ∀ t ∈ traps, 0 ≤ t.bottom ∧ t.top ≤ c.qlen := by
+  obtain ⟨s, hs, hall⟩ := clipping_never_grows c hg hits traps hm
+  have inv := mergeAll_forall c (fun t => 0 ≤ t.bottom ∧ t.top ≤ c.qlen)
+    (by intro x y hx hy
+        show 0 ≤ (absorb x y).bottom ∧ (absorb x y).top ≤ c.qlen
+        rw [absorb_bottom, absorb_top]; omega)
+    hits St.init s
+    (by intro h hh _
+        have := hin h hh
+        refine ⟨by simp only [fresh]; omega, ?_⟩
+        intro t ht
+        show 0 ≤ (widen c _ _ t).bottom ∧ (widen c _ _ t).top ≤ c.qlen
+        unfold widen; dsimp only
+        refine ⟨ht.1, ?_⟩
+        split <;> omega)
+    (by simp [St.init]) (by simp [St.init]) hs
+  intro t ht
+  obtain ⟨t0, ht0, h1, h2, _, _⟩ := hall t ht
+  have := (show 0 ≤ t0.bottom ∧ t0.top ≤ c.qlen from by
+    rcases ht0 with h | h
+    · exact inv.1 t0 h
+    · exact inv.2 t0 h)
+  omega
+
+/-- **`merger_total`** — inside the modelled domain (every hit either dropped at the head of
+    `MergeFilterHit` or with `From - bottomPadding ≤ Qlen + 1`, which every hit of `filter.Filter`
+    satisfies: `filter_hits_in_merger_domain`) the model never answers `none`: the sentinel of the
+    active list stays an inert end marker.  (Before the repair of the sixth defect the domain also
+    needed `-Diagonal ≤ Qlen`, and `filter.Filter` does produce hits beyond it.) -/
 theorem merger_total (c : Cfg) (hits : List FHit)
-    (hdom : ∀ h ∈ hits, selfCut c h = true ∨ inDomain c h = true) : ∃ traps, merge c hits = some traps := by
+    (hdom : ∀ h ∈ hits, dropped c h = true ∨ inDomain c h = true) : ∃ traps, merge c hits = some traps := by
   obtain ⟨s, hs⟩ := mergeAll_total c hits St.init hdom (by simp [St.init]) (by simp [St.init])
   exact ⟨finalise c s, by unfold merge; rw [hs]; rfl⟩
 
@@ -257,5 +310,13 @@ example : merge testCfg testHits = some
 example : merge { qv := Array.replicate 100 true, tv := Array.replicate 100 true, k := 4, maxError := 2,
                   tubeOffset := 8, maxIGap := 5, selfComparison := true } [⟨10, 30, -7⟩, ⟨12, 40, -8⟩]
     = some [⟨40, 12, 8, 17⟩] := by decide +kernel
+
+/-- non-vacuity of `clipping_never_grows` with a clip that really cuts: a run of six invalid query
+    letters at `[20, 26)` splits the trapezoid `40:0:2:5` of the single hit into `20:0:2:5` and
+    `40:26:2:5`, both within its rows -/
+example : merge { qv := Array.replicate 20 true ++ Array.replicate 6 false ++ Array.replicate 20 true,
+                  tv := Array.replicate 60 true, k := 4, maxError := 0, tubeOffset := 4, maxIGap := 5,
+                  selfComparison := false } [⟨0, 40, -2⟩]
+    = some [⟨20, 0, 2, 5⟩, ⟨40, 26, 2, 5⟩] := by decide +kernel
 
 end Biogo.Properties.C15_merge
